@@ -175,6 +175,11 @@ pub enum Op {
     ViewContains(Option<MTerm>, MTriple),
     ViewInsert(Option<MTerm>, MTriple),
     ViewRemove(Option<MTerm>, MTriple),
+    /// pattern / bulk mutations through a mutable single-graph view
+    ViewRemoveMatching(Option<MTerm>, [MSpec; 3]),
+    ViewRetainMatching(Option<MTerm>, [MSpec; 3]),
+    ViewInsertAll(Option<MTerm>, Vec<MTriple>, Option<usize>),
+    ViewRemoveAll(Option<MTerm>, Vec<MTriple>, Option<usize>),
     UnionTriples,
     UnionMatching([MSpec; 3]),
     PartialUnion(GSpec, [MSpec; 3]),
@@ -197,6 +202,10 @@ impl Op {
             Op::ViewContains(..) => "view_contains",
             Op::ViewInsert(..) => "view_insert",
             Op::ViewRemove(..) => "view_remove",
+            Op::ViewRemoveMatching(..) => "view_remove_matching",
+            Op::ViewRetainMatching(..) => "view_retain_matching",
+            Op::ViewInsertAll(..) => "view_insert_all",
+            Op::ViewRemoveAll(..) => "view_remove_all",
             Op::UnionTriples => "union_graph_triples",
             Op::UnionMatching(_) => "union_graph_matching",
             Op::PartialUnion(..) => "partial_union_graph",
@@ -515,7 +524,7 @@ where
             ensure!(got == want, o("contains"), "{name}: contains({}) = {got}, reference says {want}", fmt_quad(q));
         }
         Op::Terms => panic!("ORACLE: term enumerations go through step_ds_terms"),
-        Op::ViewTriples(_) | Op::ViewMatching(..) | Op::ViewContains(..) | Op::ViewInsert(..) | Op::ViewRemove(..) => {
+        Op::ViewTriples(_) | Op::ViewMatching(..) | Op::ViewContains(..) | Op::ViewInsert(..) | Op::ViewRemove(..) | Op::ViewRemoveMatching(..) | Op::ViewRetainMatching(..) | Op::ViewInsertAll(..) | Op::ViewRemoveAll(..) => {
             panic!("ORACLE: single-graph view operations go through step_ds_view");
         }
         Op::UnionTriples | Op::UnionMatching(_) | Op::PartialUnion(..) => {
@@ -646,6 +655,7 @@ where
 fn step_ds_view<D>(ctx: &mut Ctx, name: &str, d: &mut D, m: &mut Model, op: &Op) -> Verdict
 where
     D: MutableDataset + 'static,
+    D::MutationError: From<D::Error>,
     ST: for<'x> Term<BorrowTerm<'x> = sophia_api::dataset::DTerm<'x, D>>,
 {
     let o = |n: &str| format!("{n}/{name}");
@@ -721,6 +731,95 @@ where
                 .remove(st[0].clone(), st[1].clone(), st[2].clone())
                 .map_err(|e| Violation::new(o("spurious_error"), format!("{name}: view remove failed: {e}")))?;
             ensure!(got == want || !m.set, o("view_remove_flag"), "{name}: graph_mut({g:?}).remove returned {got}, the direct operation would return {want}");
+        }
+        Op::ViewRemoveMatching(g, ms) | Op::ViewRetainMatching(g, ms) => {
+            let sg = g.as_ref().map(MTerm::to_simple);
+            let gn = g.as_ref().map(norm_term);
+            let retain = matches!(op, Op::ViewRetainMatching(..));
+            let in_view_and_matching = |q: &MQuad| {
+                q.1 == gn && ms[0].ref_match(&q.0[0]) && ms[1].ref_match(&q.0[1]) && ms[2].ref_match(&q.0[2])
+            };
+            let before = m.quads.len();
+            if retain {
+                // only the quads of THAT graph are subject to the retention
+                m.quads.retain(|q| q.1 != gn || in_view_and_matching(q));
+            } else {
+                m.quads.retain(|q| !in_view_and_matching(q));
+            }
+            let removed = before - m.quads.len();
+            let mut view = D::graph_mut(d, sg.clone());
+            if retain {
+                view.retain_matching(ms[0].build(), ms[1].build(), ms[2].build())
+                    .map_err(|e| Violation::new(o("spurious_error"), format!("{name}: view retain_matching failed: {e}")))?;
+            } else {
+                let got = view
+                    .remove_matching(ms[0].build(), ms[1].build(), ms[2].build())
+                    .map_err(|e| Violation::new(o("spurious_error"), format!("{name}: view remove_matching failed: {e}")))?;
+                ensure!(
+                    got == removed || !m.set,
+                    o("view_remove_matching_count"),
+                    "{name}: graph_mut({g:?}).remove_matching({ms:?}) returned {got}, filtering the store removes {removed}"
+                );
+            }
+        }
+        Op::ViewInsertAll(g, ts, fail_at) | Op::ViewRemoveAll(g, ts, fail_at) => {
+            let sg = g.as_ref().map(MTerm::to_simple);
+            let inserting = matches!(op, Op::ViewInsertAll(..));
+            let mut effective = 0usize;
+            let mut want_err: Option<&'static str> = None;
+            for (i, t) in ts.iter().enumerate() {
+                if *fail_at == Some(i) {
+                    want_err = Some("source");
+                    break;
+                }
+                let q = (t.clone(), g.clone());
+                if inserting {
+                    let before = m.clone();
+                    match m.insert(&q) {
+                        Ok(true) => effective += 1,
+                        Ok(false) => {}
+                        Err(()) => {
+                            let idx = m.index.clone();
+                            *m = before;
+                            m.index = idx;
+                            want_err = Some("sink");
+                            break;
+                        }
+                    }
+                } else if m.remove(&q) {
+                    effective += 1;
+                }
+            }
+            if want_err.is_none() && *fail_at == Some(ts.len()) {
+                want_err = Some("source");
+            }
+            let quads: Vec<MQuad> = ts.iter().map(|t| (t.clone(), None)).collect();
+            let src = faulty(&quads, *fail_at).map(|r| r.map(|q| q.0));
+            let mut view = D::graph_mut(d, sg.clone());
+            let res = if inserting { view.insert_all(src) } else { view.remove_all(src) };
+            match (res, want_err) {
+                (Ok(c), None) => ensure!(
+                    c == effective || !m.set,
+                    o("view_bulk_count"),
+                    "{name}: graph_mut({g:?}).{} returned {c}, {effective} changes were effective",
+                    op.name()
+                ),
+                (Err(StreamError::SourceError(_)), Some("source")) => {
+                    ctx.fault("source_error_in_bulk_op");
+                    ctx.fault_in_op = true;
+                }
+                (Err(StreamError::SinkError(e)), Some("sink")) => {
+                    ensure!(is_index_full(&e), o("error_identity"), "{name}: expected TermIndexFullError, got {e}");
+                    ctx.fault("term_index_full_in_bulk_op");
+                    ctx.fault_in_op = true;
+                }
+                (other, want) => {
+                    return Err(Violation::new(
+                        o("bulk_outcome"),
+                        format!("{name}: graph_mut({g:?}).{} returned ok={} but the reference expects {want:?}", op.name(), other.is_ok()),
+                    ));
+                }
+            }
         }
         _ => panic!("ORACLE: not a single-graph view operation"),
     }
@@ -961,6 +1060,10 @@ where
                 "{name}: as_dataset_mut().remove(.., {gname:?}) returned {got}, the direct operation would return {want}"
             );
         }
+        // GraphAsDataset offers remove_matching / retain_matching only when its error type converts
+        // from the graph's (not expressible generically): not driven on the graph side
+        Op::ViewRemoveMatching(..) | Op::ViewRetainMatching(..) => {}
+        Op::ViewInsertAll(..) | Op::ViewRemoveAll(..) => {}
         Op::Terms | Op::UnionMatching(_) => {}
     }
     let got = {
@@ -1043,6 +1146,7 @@ fn step_all_ds(ctx: &mut Ctx, s: &mut DsStores, models: &mut [Model], op: &Op, p
     let single_view = matches!(
         op,
         Op::ViewTriples(_) | Op::ViewMatching(..) | Op::ViewContains(..) | Op::ViewInsert(..) | Op::ViewRemove(..)
+            | Op::ViewRemoveMatching(..) | Op::ViewRetainMatching(..) | Op::ViewInsertAll(..) | Op::ViewRemoveAll(..)
     );
     macro_rules! go {
         ($i:expr, $f:ident) => {
@@ -1212,7 +1316,18 @@ fn draw_op(ctx: &mut Ctx, a: &Alphabet, p: &Profile, pool: &TermPool, views: boo
         15 => Op::ViewMatching(draw_gname(&mut ctx.tape, pool, &a.graphs), draw_ms(ctx, pool)),
         16 => Op::ViewContains(draw_gname(&mut ctx.tape, pool, &a.graphs), draw_quad(ctx, a, p, pool).0),
         17 => Op::ViewInsert(draw_gname(&mut ctx.tape, pool, &a.graphs), draw_quad(ctx, a, p, pool).0),
-        18 => Op::ViewRemove(draw_gname(&mut ctx.tape, pool, &a.graphs), draw_quad(ctx, a, p, pool).0),
+        18 => match ctx.tape.draw(5) {
+            0 | 1 => Op::ViewRemove(draw_gname(&mut ctx.tape, pool, &a.graphs), draw_quad(ctx, a, p, pool).0),
+            2 => Op::ViewRemoveMatching(draw_gname(&mut ctx.tape, pool, &a.graphs), draw_ms(ctx, pool)),
+            3 => Op::ViewRetainMatching(draw_gname(&mut ctx.tape, pool, &a.graphs), draw_ms(ctx, pool)),
+            _ => {
+                let n = ctx.tape.below(5);
+                let ts: Vec<MTriple> = (0..n).map(|_| draw_quad(ctx, a, p, pool).0).collect();
+                let fail = if ctx.tape.chance(1, 3) { Some(ctx.tape.below(n + 1)) } else { None };
+                let g = draw_gname(&mut ctx.tape, pool, &a.graphs);
+                if ctx.tape.flag() { Op::ViewInsertAll(g, ts, fail) } else { Op::ViewRemoveAll(g, ts, fail) }
+            }
+        },
         19 => Op::UnionTriples,
         20 => Op::UnionMatching(draw_ms(ctx, pool)),
         _ => Op::PartialUnion(draw_gspec(&mut ctx.tape, pool, &a.graphs, 0), draw_ms(ctx, pool)),
@@ -1229,7 +1344,7 @@ fn probe_op(ctx: &mut Ctx, op: &Op) {
             specs.extend(ms.iter());
             gspec = Some(g);
         }
-        Op::ViewMatching(_, ms) | Op::UnionMatching(ms) => specs.extend(ms.iter()),
+        Op::ViewMatching(_, ms) | Op::UnionMatching(ms) | Op::ViewRemoveMatching(_, ms) | Op::ViewRetainMatching(_, ms) => specs.extend(ms.iter()),
         _ => {}
     }
     for (i, s) in specs.iter().enumerate() {
